@@ -482,7 +482,7 @@ impl C16 {
     fn gen_printable(&self, rng: &mut Rng, depth: usize) -> MV {
         if depth >= 2 || rng.chance(1, 2) {
             return match rng.below(3) {
-                0 => MV::Int(*rng.pick(&[0i128, -1, 1, i128::MAX, i128::MIN, 255, -256, 1 << 64, i64::MIN as i128])),
+                0 => MV::Int(*rng.pick(&[0i128, -1, 1, i128::MAX, i128::MIN, 255, -256, 1 << 64, i64::MIN as i128, i64::MAX as i128, 1 << 63, (1 << 63) + 1, -(1i128 << 63) - 1, 1 << 31, 1 << 32, u64::MAX as i128, i128::MAX - 1, i128::MIN + 1])),
                 1 => MV::Int((rng.next_u128() >> rng.below(128)) as i128),
                 _ => {
                     let n = *rng.pick(&[0usize, 1, 3, 4, 7, 8, 9, 12, 16, 31, 64, 100, 247, 248, 249, 256, 300, 511, 600]) + rng.below(2);
